@@ -411,6 +411,9 @@ Outcome Interp::exec(const Op &op) {
                     out.skipped = true; out.note = "nothing declared (or channels declared without a usable ANALOG:RATE): adding frames is undocumented, not called"; return out;
                 }
             }
+            if (slotDev[slot] == "perm" && k == "fsub" && openFindings.count("KF-D21")) {
+                excluded["KF-D21"]++; out.skipped = true; out.note = "excluded: known finding KF-D21 (frame whose points are a permutation of POINT:LABELS)"; return out;
+            }
             if (mode == 2 && n == 0 && k == "fsub" && openFindings.count("KF-D20")) {
                 excluded["KF-D20"]++; out.skipped = true; out.note = "excluded: known finding KF-D20 (indexed add beyond the end of an empty data set)"; return out;
             }
@@ -419,7 +422,7 @@ Outcome Interp::exec(const Op &op) {
             else if (mode == 1) { size_t idx = static_cast<size_t>(kk) % n; out.note = "replace " + std::to_string(idx); obj->frame(slots[slot], idx); }
             else { size_t idx = n + static_cast<size_t>(kk % 6); out.note = "extend " + std::to_string(idx); obj->frame(slots[slot], idx); }
             // accepted although it deviates from the declared shape: the documentation does not promise this refusal; history ends
-            if (slotDev[slot] != "match" && slotDev[slot] != "unnamed-channels" && !slotDev[slot].empty()) {
+            if (slotDev[slot] != "match" && slotDev[slot] != "unnamed-channels" && slotDev[slot] != "perm" && !slotDev[slot].empty()) {
                 if (slotDev[slot].find("mut:") == std::string::npos || slotDev[slot].rfind("match", 0) != 0 || true) {
                     Shape s2 = shapeOf(*obj);
                     const auto &fr = slots[slot];
